@@ -96,7 +96,7 @@ class PersistenceLandscaper(BaseEstimator, TransformerMixin):
         _dgm = X[self.hom_deg]
         # a value learned by an earlier fit is learned again from X; a value
         # set by the user is kept
-        learned = getattr(self, "_learned_grid", {})
+        learned = dict(getattr(self, "_learned_grid", {}))
         if self.start is None or ("start" in learned and self.start == learned["start"]):
             self.start = min(_dgm, key=itemgetter(0))[0]
             learned["start"] = self.start
@@ -105,6 +105,15 @@ class PersistenceLandscaper(BaseEstimator, TransformerMixin):
             learned["stop"] = self.stop
         self._learned_grid = learned
         return self
+
+    def __setattr__(self, name, value):
+        # assigning start or stop (directly or through set_params) fixes the
+        # value, even when it equals the one an earlier fit had learned
+        if name in ("start", "stop") and "_learned_grid" in self.__dict__:
+            self._learned_grid = {
+                k: v for k, v in self._learned_grid.items() if k != name
+            }
+        super().__setattr__(name, value)
 
     def transform(self, X: np.ndarray, y=None):
         """Construct persistence landscape values.
